@@ -307,6 +307,12 @@ func mark(t *rapid.T, v any, n *int) any {
 	case string:
 		switch rapid.IntRange(0, 4).Draw(t, "mk") {
 		case 0:
+			if len(x) >= 6 && strings.ToUpper(x) != x && rapid.Bool().Draw(t, "caseflip") {
+				// the value in other letter case: not in the schema as written, and easily "corrected" by a
+				// helpful message
+				*n++
+				return strings.ToUpper(x)
+			}
 			return x
 		case 4:
 			// well-shaped for a format but not a member of it: validators that go beyond the shape
